@@ -36,7 +36,7 @@ concrete_arrays()
 ATOMS = [u"alfa", u"Bravo", u" ", u"-", u"Wi", u"Fi", u"the", u"running", u"2000", u"é", u"&", u"<b>", u". ", u",",
          u"_", u"'s", u"ß", u"http://a.b/c?d=1", u"\U0001F600", u"x" * 70, u"日本", u"ICs",
          u"\t", u"@", u"a", u"to", u"PowerShot", u"&amp;", u"\n", u"ü"]
-NA = tiered(14, 22)       # quick: the first 14 atoms, thorough: the first 22 (the full table is swept concretely during development only)
+NA = tiered(14, 18)       # quick: the first 14 atoms, thorough: the first 18 (the full table is swept concretely during development only)
 
 
 def _iw_documented():
@@ -218,7 +218,7 @@ def _mk(ai):
     @h(bounds="analyzer %s; every text of %d atoms from a %d-atom alphabet (mixed case, hyphen%s, stop word, inflected word, digits, accent, '&', '<b>', "
               "punctuation); Term per index token, query-time conjunction, parser term_query, phrases of 2 and 3 consecutive positions, position monotonicity, "
               "offsets, highlights with 4 fragmenters x 2 formatters"
-              % (ANALYZERS[ai][0], LQ, NA, "/underscore/apostrophe, sharp s, URL, non-BMP, CJK, 70-character token" if THOROUGH else ""),
+              % (ANALYZERS[ai][0], LQ, NA, "/underscore/apostrophe, sharp s, URL" if THOROUGH else ""),
        funcs=FUNCS, examples=[dict(a=0, b=2, c=1), dict(a=4, b=3, c=5)], timeout=dict(quick=900, thorough=3000),
        outside="texts of more than 3 atoms, atoms outside the alphabet, analyzers not in the table (other languages' stemmers, custom chains)")
     def harness(a: int, b: int, c: int) -> Optional[str]:
